@@ -144,10 +144,12 @@ func runSpec(spec *Spec, dir string, verbose bool) *Result {
 	s.buildWorld()
 	// periodic world events
 	var replTick func()
+	replN := 0
 	replTick = func() {
+		replN++
 		s.mysql.replTick()
 		d := ms(spec.World.ReplTickMs)
-		d = d*7/10 + time.Duration(s.h("repltick", fmt.Sprint(s.stats.Steps))%uint64(d*6/10+1))
+		d = d*7/10 + time.Duration(s.h("repltick", fmt.Sprint(replN))%uint64(d*6/10+1))
 		s.after(d, "repl", replTick)
 	}
 	s.after(ms(spec.World.ReplTickMs), "repl", replTick)
@@ -171,7 +173,43 @@ func runSpec(spec *Spec, dir string, verbose bool) *Result {
 		s.after(delay, "start-daemon", func() { s.startDaemon(host) })
 	}
 	s.scheduleTimeline()
+	if spec.World.AutoResetupMs > 0 {
+		pending := map[string]bool{}
+		var agent func()
+		agent = func() {
+			for _, h := range spec.Hosts {
+				host := h.Name
+				if h.Role == "decoy" || pending[host] || !s.fileExists(host, "resetup") {
+					continue
+				}
+				pending[host] = true
+				s.after(ms(spec.World.AutoResetupMs), "resetup", func() {
+					pending[host] = false
+					if m := s.mysql.servers[s.recordedMaster()]; m != nil && m.Up && m.Name != host {
+						s.stats.Probes["auto_resetup_done"]++
+						s.doResetup(host)
+					}
+				})
+			}
+			s.after(2*time.Second, "resetup-agent", agent)
+		}
+		s.after(2*time.Second, "resetup-agent", agent)
+	}
 	s.run(ms(spec.DurationMs))
+	if spec.LivenessMs > 0 {
+		// slow-but-moving runs are extended (up to 3 bounds) instead of flagged (DESIGN §5)
+		for ext := 0; ext < 2 && !s.stop; ext++ {
+			s.mon.afterEvent()
+			if len(s.mon.canonicalProblems(true)) == 0 {
+				break
+			}
+			if s.mon.final != nil && s.mon.final.stableFor() >= ms(spec.LivenessMs)/3 {
+				break
+			}
+			s.stats.Probes["liveness_extended"]++
+			s.run(s.now() + ms(spec.LivenessMs))
+		}
+	}
 	stepCounter.Add(1)
 	s.mon.afterEvent()
 	s.mon.atEnd()
